@@ -178,8 +178,9 @@ func lagPhases(rep *explore.Report, prop string) {
 		return
 	}
 	lagPhase(rep, prop, 1, 0, explore.Deadline(40*time.Second, time.Minute))
-	if prop == "C03" {
-		// the "live up-to-date pod is never deleted" clause needs a cache two events behind
+	if prop == "C03" || prop == "C04" {
+		// the "live up-to-date pod is never deleted" clause needs a cache two events behind; so does a create at an
+		// ordinal whose finished pod the cache still shows while the API already holds its replacement
 		lagPhase(rep, prop, 2, 0, explore.Deadline(60*time.Second, time.Minute))
 	}
 }
